@@ -127,6 +127,11 @@ func (a *adapter[K]) Seq(tag string, args []string) iter.Seq2[string, int] {
 	default:
 		panic("bad seq tag " + tag)
 	}
+	if tag == "RNG" || tag == "PFX" {
+		if _, isBytes := any(*new(K)).([]byte); isBytes {
+			bufScribble() // Range / Prefix have returned: the bound buffers are the caller's again
+		}
+	}
 	return func(yield func(string, int) bool) {
 		// the keys handed to the consumer are kept and looked at again when the pass is over: a key that
 		// reads differently then was returned in storage that later yields (or the tree) overwrite
@@ -270,6 +275,11 @@ func newTree(kind, variant string) treeDrv {
 				func(s string) string { return string(xbytes(collOrig(s))) },
 				func(k string) string { return xhex([]byte(k)) })
 		}
+	case kind == "raw" && variant == "bytes":
+		// the same with []byte keys and a Restore that ALIASES its input, as the library's own
+		// AlphabeticalOrderKey[[]byte].Restore does: a key handed out must stay as it was handed out
+		return numDrv(art.NewCompoundTree[[]byte, int](rawBytesCodec{}),
+			func(s string) []byte { return bufKey(xbytes(s)) }, xhex)
 	case kind == "raw":
 		// a user codec that is not a tuple schema: the identity on byte strings (the caller keeps the key set prefix-free)
 		return numDrv(art.NewCompoundTree[string, int](rawCodec{}),
@@ -318,6 +328,12 @@ type rawCodec struct{}
 
 func (rawCodec) Transform(k string) ([]byte, []byte) { b := []byte(k); return b, b }
 func (rawCodec) Restore(b []byte) string             { return string(b) }
+
+type rawBytesCodec struct{}
+
+// (the encoding is a fresh slice: a compound tree keeps what Transform returns as the leaf's key)
+func (rawBytesCodec) Transform(k []byte) ([]byte, []byte) { b := append([]byte{}, k...); return b, b }
+func (rawBytesCodec) Restore(b []byte) []byte             { return b }
 
 type schemaCodec struct{ fields []field }
 
